@@ -131,7 +131,7 @@ def run_case(case):
             return res
         lab_scheme = case['graph'].get('labels', 'int')
         for form in ['tuple', 'range', 'ndarray', 'dictkeys', 'single', 'positional']:
-            if form in ('tuple', 'ndarray') and lab_scheme in ('tuple', 'mixed'):
+            if form in ('tuple', 'ndarray') and lab_scheme in gen.CONTAINER_LIKE:
                 continue
             cc = dict(case)
             cc['I0_form'] = 'list' if form == 'positional' else form
@@ -199,7 +199,7 @@ def run_case(case):
         elif bf == 'set':
             val = set(call.I0)
         elif bf == 'tuple':
-            if case['graph'].get('labels') in ('tuple', 'mixed'):
+            if case['graph'].get('labels') in gen.CONTAINER_LIKE:
                 return res
             val = tuple(call.I0)
         else:
